@@ -199,6 +199,10 @@ def _rest(cx: Cx):
                  f"change under the caller, and the caller's edits would reach the environment)", where)
             continue
         lf = list_facts(all_paths, p, v, is_base)
+        if not lf.ok and lf.err and 'left early' in lf.err:
+            viol('R-ITER', 'every-agent-considered', "get_agents leaves the scan over the agents early: agents behind that point are never "
+                 "tested against the filter, so matching agents are missing from the answer (and from shuffle / get_random_agent)", where)
+            continue
         if not lf.ok:
             cx.inconclusive('R-GUARD', 'get_agents result', f"the returned list could not be traced back to Environment.agents: {lf.err}",
                             where=where, function=ga.qualname)
